@@ -72,12 +72,18 @@ pub fn evaluate_all(progs: Vec<Prog>, config: refsem::Config, tag: &str) -> Resu
 /// A second, fixed entry module for the layout runs.
 pub const SECOND_MODULE: &str = "class Helper(val n: int) {\n  method twice(): int = this.n * 2\n}\nclass Main {\n  function sum(i: int, acc: int): int = if i > 10 { acc } else { Main.sum(i + 1, acc + i) }\n  function main(): unit = {\n    Process.println(\"second: \" :: Str.fromInt(Main.sum(0, 0)));\n    Process.println(\"second done \" :: Str.fromInt(Helper.init(21).twice()))\n  }\n}\n";
 pub const SECOND_LINES: [&str; 2] = ["second: 55", "second done 42"];
+/// The second entry module in the variant that runs the program's own `Main.main` in between (through
+/// a helper module, since both entry classes are called `Main`).
+pub const SECOND_MODULE_CALLING_MAIN: &str = "import { Runner } from other.Runner\nclass Helper(val n: int) {\n  method twice(): int = this.n * 2\n}\nclass Main {\n  function sum(i: int, acc: int): int = if i > 10 { acc } else { Main.sum(i + 1, acc + i) }\n  function main(): unit = {\n    Process.println(\"second: \" :: Str.fromInt(Main.sum(0, 0)));\n    Runner.run();\n    Process.println(\"second done \" :: Str.fromInt(Helper.init(21).twice()))\n  }\n}\n";
+pub const RUNNER_MODULE: &str = "import { Main } from app.deep.Main\nclass Runner {\n  function run(): unit = Main.main()\n}\n";
 
 /// One program in another project layout: the module lives at a path of three segments and is
 /// compiled together with a second entry module, entries in the given order.
 pub struct LayoutEval {
   pub prog_index: usize,
   pub main_first: bool,
+  /// the second entry's main calls the program's main (which is therefore a root AND a callee)
+  pub second_calls_main: bool,
   pub compile: Result<(), CompileFail>,
   /// (wasm, ts) of the program's own entry and of the second entry
   pub main: Option<(RunResult, RunResult)>,
@@ -87,11 +93,18 @@ pub struct LayoutEval {
 pub fn evaluate_layouts(progs: &[&Prog], tag: &str) -> Result<Vec<LayoutEval>, String> {
   let main_name = "app.deep.Main".to_string();
   let second_name = "other.Second".to_string();
-  let configs: Vec<(usize, bool)> = (0..progs.len()).flat_map(|i| [(i, true), (i, false)]).collect();
+  let configs: Vec<(usize, bool, bool)> =
+    (0..progs.len()).flat_map(|i| [(i, true, false), (i, false, false), (i, true, true), (i, false, true)]).collect();
   let compiled: Vec<Result<Vec<exec::Emitted>, CompileFail>> = configs
     .par_iter()
-    .map(|(i, main_first)| {
-      let sources = vec![(main_name.clone(), progs[*i].text.clone()), (second_name.clone(), SECOND_MODULE.to_string())];
+    .map(|(i, main_first, calls_main)| {
+      let mut sources = vec![(main_name.clone(), progs[*i].text.clone())];
+      if *calls_main {
+        sources.push((second_name.clone(), SECOND_MODULE_CALLING_MAIN.to_string()));
+        sources.push(("other.Runner".to_string(), RUNNER_MODULE.to_string()));
+      } else {
+        sources.push((second_name.clone(), SECOND_MODULE.to_string()));
+      }
       let entries = if *main_first { vec![main_name.clone(), second_name.clone()] } else { vec![second_name.clone(), main_name.clone()] };
       exec::compile_program_entries(&sources, &entries)
     })
@@ -111,7 +124,7 @@ pub fn evaluate_layouts(progs: &[&Prog], tag: &str) -> Result<Vec<LayoutEval>, S
   let mut out: Vec<LayoutEval> = configs
     .iter()
     .zip(compiled.iter())
-    .map(|((i, main_first), c)| LayoutEval { prog_index: *i, main_first: *main_first, compile: c.as_ref().map(|_| ()).map_err(|e| e.clone()), main: None, second: None })
+    .map(|((i, main_first, calls_main), c)| LayoutEval { prog_index: *i, main_first: *main_first, second_calls_main: *calls_main, compile: c.as_ref().map(|_| ()).map_err(|e| e.clone()), main: None, second: None })
     .collect();
   for (j, k) in owner.into_iter().enumerate() {
     let r = &results[4 * j..4 * j + 4];
